@@ -28,6 +28,8 @@ ASSUMPTIONS = [
     "cases with |x|>100 for sin/cos or |x|>50 for exp are discarded (ill-conditioned, last-bit differences are amplified)",
 ]
 NT_FLOOR = 0.3
+# coverage-guided complement (sv/fuzz.py): strategy -> number of cases
+FUZZ = {"thorough": {"numerical": 15000, "logical": 15000}}
 _uid = itertools.count()
 
 UNITS = {"angle": ["rad", "deg", "mrad"], "len": ["m", "cm", "km", "mm"], "time": ["s", "min", "ms"], "vel": ["m/s", "km/h", "cm/s"], "area": ["m2", "cm2"],
